@@ -14,7 +14,7 @@ DOC = {
         'C12.M': __import__('fcverif.rules.common', fromlist=['MANDATORY_TEXT']).MANDATORY_TEXT,
         'C12.R1': 'Key = {file_id, chunk_pos, chunk_len} covering all FileChunk fields; tree id formatted from algorithm and transform command; FileHasher::new_cached passes its own algorithm and transform.command_str',
         'C12.R2': 'HashCache::get: Some only if modified_timestamp_ms == current and file_len == current (equality tests, both guarding the hit)',
-        'C12.R3': 'put and get compute the time stamp with the same conversion chain (modified -> duration_since(UNIX_EPOCH) -> as_millis)',
+        'C12.R3': 'put and get compute the time stamp with the same conversion chain (modified -> duration_since(UNIX_EPOCH) -> as_millis), and the chain has no lossy step (fallback constant, clamp, saturation): different modification times give different stamps',
         'C12.R4': 'hash_file / hash_transformed: load_hash and store_hash use the same key and metadata; metadata is captured before hashing; store follows a successful hash',
     },
     'not_decided': 'inode reuse within one millisecond; sled durability; that every content change changes mtime or length (premise)',
@@ -141,16 +141,29 @@ def r2(ctx):
     ctx.check(ok, rule, P + '|lookup-key', (g[0].where() if g else b.where()), 'the entry is looked up under the given key', 'the entry is not looked up under the given key')
 
 
-def conv_chain(b, op):
+LOSSY = ('unwrap_or', 'unwrap_or_default', 'unwrap_or_else', 'saturating_sub', 'saturating_add', 'min', 'max', 'clamp', 'ok', 'unwrap_or_else')
+
+
+def conv_chain(b, op, _depth=0):
+    """names of the time conversions between Metadata::modified and the operand, looking through local helper functions
+    (their own chain is inlined, prefixed by the helper name)"""
     sl = backslice(b, [op])
     names = []
+    lossy = []
     for c in sl.calls:
         n = c.path.rsplit('::', 1)[-1]
-        if n in ('modified', 'duration_since', 'as_millis', 'as_secs', 'as_micros', 'as_nanos', 'unwrap_or', 'subsec_millis', 'subsec_nanos', 'elapsed', 'now'):
+        if n in ('modified', 'duration_since', 'as_millis', 'as_secs', 'as_micros', 'as_nanos', 'unwrap_or', 'subsec_millis', 'subsec_nanos', 'elapsed', 'now', 'duration'):
             names.append(n)
+        if n in LOSSY and c.matches(r'Result(::)?<.*>::|Option(::)?<.*>::|Ord::|cmp::|u64|u128|Duration::'):
+            lossy.append('%s at %s' % (n, c.where()))
+        if c.f.get('local') and _depth < 2 and c.body.unit.body(c.path) is not None and c.body.unit.body(c.path).file == b.file and not c.path.endswith('::modified'):
+            hb = c.body.unit.body(c.path)
+            sub = conv_chain(hb, {'c': [0, []]}, _depth + 1)
+            names.append('%s(%s)' % (n, ','.join(sub[0])))
+            lossy.extend(sub[3])
     casts = sorted({s['rv']['ty'] for blk in b.blocks for s in blk['stmts'] if s['rv']['k'] == 'cast' and s['p'][0] in sl.locals and s['rv']['ty'] in ('u64', 'u128', 'i64', 'u32')})
     items = sorted(i for i in sl.items if 'EPOCH' in i or 'ZERO' in i)
-    return sorted(names), casts, items
+    return sorted(names), casts, items, lossy
 
 
 def r3(ctx):
@@ -169,7 +182,11 @@ def r3(ctx):
         for side, other in ((cmp.a, cmp.b), (cmp.b, cmp.a)):
             if 'modified_timestamp_ms' in backslice(g, [side]).field_names() and backslice(g, [other]).has_call(r'Metadata::modified$'):
                 gc = conv_chain(g, other)
-    ctx.check(gc is not None and pc == gc and 'as_millis' in pc[0], rule, 'cache::HashCache|timestamp-derivation', p.where(), 'put and get: %s, cast %s, consts %s' % (pc[0], pc[1], pc[2]), 'put derives the time stamp as %s but get as %s' % (pc, gc))
+    ctx.check(gc is not None and not pc[3] and not gc[3], rule, 'cache::HashCache|timestamp-lossless', p.where(),
+              'the stored / compared time stamp is an injective function of the modification time (no fallback constant, clamp or saturation in the conversion)',
+              'the time stamp that decides whether a cached hash is still valid passes a lossy step (%s): every modification time for which the conversion fails (before 1970: duration_since '
+              'returns Err) is stored and compared as the same constant, so a changed file with another such mtime still hits the cache and its stale hash is reported' % '; '.join((pc[3] + (gc[3] if gc else []))[:3]))
+    ctx.check(gc is not None and pc[:3] == gc[:3] and 'as_millis' in ' '.join(pc[0]), rule, 'cache::HashCache|timestamp-derivation', p.where(), 'put and get: %s, cast %s, consts %s' % (pc[0], pc[1], pc[2]), 'put derives the time stamp as %s but get as %s' % (pc, gc))
     # put stores the current length and the data length / hash it was given
     s = ag[0][1]
     ok = backslice(p, [agg_field(s, 'file_len')]).has_call(r'FileMetadata::len$') and 4 in backslice(p, [agg_field(s, 'data_len')]).params and 5 in backslice(p, [agg_field(s, 'hash')]).params
